@@ -134,9 +134,14 @@ def case_bounds(ops, idx):
 
 def run_slice(pid, name, n, seed, workdir, log):
     """returns dict(status, lines, cases, stats, disagreement, oracle_failures)"""
-    r = run([CVH, name, "--seed", str(seed), "--n", str(n), "--out", workdir], timeout=7200)
-    log.append(r.stdout[-2000:])
     res = {"slice": name, "n": n}
+    try:
+        r = run([CVH, name, "--seed", str(seed), "--n", str(n), "--out", workdir], timeout=14400)
+    except subprocess.TimeoutExpired:
+        res["status"] = "harness-hang"
+        res["detail"] = "the slice did not finish within 14400 s"
+        return res
+    log.append(r.stdout[-2000:])
     if r.returncode != 0:
         res["status"] = "harness-crash"
         res["detail"] = r.stdout[-2000:]
